@@ -4,6 +4,7 @@ import (
 	"bytes"
 	"fmt"
 	"strings"
+	"unicode/utf8"
 
 	"verifsim/model"
 )
@@ -184,6 +185,25 @@ func (e *Env) DrawNames(n int) {
 	}
 	for _, nm := range namePool {
 		add(nm)
+	}
+	// Siblings: a name of the run with one character replaced by a nearby
+	// code point (prefix patterns ending right there must not spill over).
+	if e.T.Bool(1, 3) {
+		for k, ns := 0, e.T.Range(1, 2); k < ns; k++ {
+			r := []rune(e.Names[e.T.Choice(len(e.Names))])
+			if len(r) == 0 {
+				continue
+			}
+			i := e.T.Choice(len(r))
+			d := []rune{1, -1, 0x10, 0x40, 0x100}[e.T.Choice(5)]
+			if c := r[i] + d; c > 0x20 && c != '*' && c != 0xFFFD && utf8.ValidRune(c) && !(c >= 0xD800 && c <= 0xDFFF) {
+				r[i] = c
+				if sib := string(r); !seen[sib] && !strings.HasPrefix(sib, "_internal") {
+					seen[sib] = true
+					e.Names = append(e.Names, sib)
+				}
+			}
+		}
 	}
 	// Names that path-clean to another name of the run: to the store they
 	// are different secrets (names are opaque strings).
